@@ -364,6 +364,8 @@ bool AutomationMgr::handleMidi(int channel, int type, int val)
         if(bound_nrpn)
             return 1;
         }
+        else //(N)RPN sequence is not complete yet
+            return 0;
         
     }
     else {
